@@ -11,6 +11,10 @@ pub fn exec_oracle(kind: &str, fields: &[&str]) -> String {
         "S_C04" => oracle_c04(fields),
         "S_C07" => oracle_c07(fields),
         "S_C07M" => oracle_c07m(fields),
+        "S_C11A" => oracle_c11_adapt(fields),
+        "S_C11ACC" => oracle_c11_accept(fields),
+        "S_C11X" => oracle_c11_axisswap(fields),
+        "S_C11U" => oracle_c11_unit(fields),
         _ => "bad-case".to_string(),
     }
 }
@@ -532,4 +536,216 @@ fn oracle_c07m(fields: &[&str]) -> String {
         return format!("oracle FAIL molodensky differs from the cartesian path by {worst:.4} m (tolerance {tol} m): {mdef}");
     }
     format!("oracle pass worst={worst:.5}")
+}
+
+// ----- C11: adapt / axisswap / unitconvert against their documentation ---------------------
+
+fn close(a: f64, b: f64) -> bool {
+    if a.is_nan() || b.is_nan() {
+        return a.is_nan() && b.is_nan();
+    }
+    a == b || (a - b).abs() <= 4.0 * f64::EPSILON * a.abs().max(b.abs())
+}
+
+/// what a descriptor declares: for each external position the internal axis, the sign and whether
+/// the angular unit applies (the two first positions); and the unit factor to radians
+fn describe(d: &str) -> ([usize; 4], [f64; 4], f64) {
+    let unit = if d.ends_with("_deg") {
+        std::f64::consts::PI / 180.0
+    } else if d.ends_with("_gon") {
+        std::f64::consts::PI / 200.0
+    } else {
+        1.0
+    };
+    let mut axis = [0usize; 4];
+    let mut sign = [1.0f64; 4];
+    for (i, c) in d.chars().take(4).enumerate() {
+        axis[i] = crate::gens::c11::axis_of(c);
+        sign[i] = if "wsdp".contains(c) { -1.0 } else { 1.0 };
+    }
+    (axis, sign, unit)
+}
+
+fn oracle_c11_adapt(fields: &[&str]) -> String {
+    let (from, to) = (fields[0], fields[1]);
+    let data = parse_data(fields[2]);
+    let (fa, fs, fu) = describe(from);
+    let (ta, ts, tu) = describe(to);
+    // reference: external(from) -> internal -> external(to)
+    let reference: Vec<Coor4D> = data
+        .iter()
+        .map(|c| {
+            let mut internal = [0.0f64; 4];
+            for i in 0..4 {
+                internal[fa[i]] = c[i] * fs[i] * if i < 2 { fu } else { 1.0 };
+            }
+            let mut out = [0.0f64; 4];
+            for j in 0..4 {
+                out[j] = internal[ta[j]] * ts[j] / if j < 2 { tu } else { 1.0 };
+            }
+            Coor4D(out)
+        })
+        .collect();
+    let def = format!("adapt from={from} to={to}");
+    let (n, out) = match apply_def(&def, Fwd, &data) {
+        Ok(x) => x,
+        Err(e) => return format!("oracle FAIL {e}"),
+    };
+    if n != data.len() {
+        return format!("oracle FAIL count {n}");
+    }
+    for (o, r) in out.iter().zip(reference.iter()) {
+        for i in 0..4 {
+            if !close(o[i], r[i]) {
+                return format!("oracle FAIL {def}: element {i} is {} but the descriptors declare {}", o[i], r[i]);
+            }
+        }
+    }
+    // the inverse is the exact reverse mapping
+    let (_, back) = match apply_def(&def, Inv, &out) {
+        Ok(x) => x,
+        Err(e) => return format!("oracle FAIL {e}"),
+    };
+    for (b, c) in back.iter().zip(data.iter()) {
+        for i in 0..4 {
+            if !close(b[i], c[i]) {
+                return format!("oracle FAIL {def}: inverse of forward gives {} for {}", b[i], c[i]);
+            }
+        }
+    }
+    // `adapt to=X` equals `adapt inv from=X`
+    if from == "enuf" {
+        let (_, alt) = match apply_def(&format!("adapt inv from={to}"), Fwd, &data) {
+            Ok(x) => x,
+            Err(e) => return format!("oracle FAIL {e}"),
+        };
+        for (a, o) in alt.iter().zip(out.iter()) {
+            for i in 0..4 {
+                if !close(a[i], o[i]) {
+                    return format!("oracle FAIL adapt to={to} differs from adapt inv from={to}: {} vs {}", o[i], a[i]);
+                }
+            }
+        }
+    }
+    "oracle pass".to_string()
+}
+
+fn oracle_c11_accept(fields: &[&str]) -> String {
+    let d = unescape(fields[0]);
+    let expect = fields[1] == "1";
+    let mut ctx = Minimal::default();
+    let got = ctx.op(&format!("adapt from={d}")).is_ok();
+    if got != expect {
+        return format!("oracle FAIL descriptor {:?} {} but should be {}", d, if got { "accepted" } else { "rejected" }, if expect { "accepted" } else { "rejected" });
+    }
+    "oracle pass".to_string()
+}
+
+fn oracle_c11_axisswap(fields: &[&str]) -> String {
+    let order: Vec<i64> = fields[0].split(',').filter_map(|x| x.parse().ok()).collect();
+    let data = parse_data(fields[1]);
+    let n = order.len();
+    let mut valid = n >= 1 && n <= 4;
+    let mut seen = [false; 5];
+    for o in &order {
+        let a = o.unsigned_abs() as usize;
+        if *o == 0 || a > n || a > 4 || seen[a.min(4)] {
+            valid = false;
+            break;
+        }
+        seen[a] = true;
+    }
+    let def = format!("axisswap order={}", fields[0]);
+    let mut ctx = Minimal::default();
+    let op = ctx.op(&def);
+    if op.is_ok() != valid {
+        return format!("oracle FAIL {def} {} but should be {}", if op.is_ok() { "accepted" } else { "rejected" }, if valid { "accepted" } else { "rejected" });
+    }
+    if !valid {
+        return "oracle pass".to_string();
+    }
+    let op = op.unwrap();
+    let mut out = data.clone();
+    if ctx.apply(op, Fwd, &mut out).is_err() {
+        return "oracle FAIL apply".to_string();
+    }
+    for (o, c) in out.iter().zip(data.iter()) {
+        for i in 0..4 {
+            let want = if i < n { c[order[i].unsigned_abs() as usize - 1] * if order[i] < 0 { -1.0 } else { 1.0 } } else { c[i] };
+            if o[i].to_bits() != want.to_bits() {
+                return format!("oracle FAIL {def}: element {i} is {} but should be {}", o[i], want);
+            }
+        }
+    }
+    let mut back = out.clone();
+    let _ = ctx.apply(op, Inv, &mut back);
+    if dump_data(&back) != dump_data(&data) {
+        return format!("oracle FAIL {def}: the inverse does not undo the forward");
+    }
+    "oracle pass".to_string()
+}
+
+/// the published unit factors (PROJ units.c / the defining fractions), kept here independently
+fn published_factor(u: &str) -> Option<f64> {
+    Some(match u {
+        "km" => 1000.0,
+        "m" => 1.0,
+        "dm" => 0.1,
+        "cm" => 0.01,
+        "mm" => 0.001,
+        "kmi" => 1852.0,
+        "in" => 0.0254,
+        "ft" => 0.3048,
+        "yd" => 0.9144,
+        "mi" => 1609.344,
+        "fath" => 1.8288,
+        "ch" => 20.1168,
+        "link" => 0.201168,
+        "us-in" => 100.0 / 3937.0,
+        "us-ft" => 1200.0 / 3937.0,
+        "us-yd" => 3600.0 / 3937.0,
+        "us-ch" => 79200.0 / 3937.0,
+        "us-mi" => 6336000.0 / 3937.0,
+        "ind-yd" => 0.91439523,
+        "ind-ft" => 0.30479841,
+        "ind-ch" => 20.11669506,
+        "rad" => 1.0,
+        "deg" => std::f64::consts::PI / 180.0,
+        "grad" => std::f64::consts::PI / 200.0,
+        _ => return None,
+    })
+}
+
+fn oracle_c11_unit(fields: &[&str]) -> String {
+    let (a, b) = (fields[0], fields[1]);
+    let data = parse_data(fields[2]);
+    let (Some(fa), Some(fb)) = (published_factor(a), published_factor(b)) else { return "bad-case".to_string() };
+    let ratio = fa / fb;
+    for (def, idx) in [(format!("unitconvert xy_in={a} xy_out={b}"), vec![0usize, 1]), (format!("unitconvert z_in={a} z_out={b}"), vec![2usize])] {
+        let (_, out) = match apply_def(&def, Fwd, &data) {
+            Ok(x) => x,
+            Err(e) => return format!("oracle FAIL {e}"),
+        };
+        for (o, c) in out.iter().zip(data.iter()) {
+            for i in 0..4 {
+                let want = if idx.contains(&i) { c[i] * ratio } else { c[i] };
+                let ok = if idx.contains(&i) { (o[i] - want).abs() <= 1e-14 * want.abs().max(1e-300) * 8.0 || o[i] == want } else { o[i].to_bits() == want.to_bits() };
+                if !ok {
+                    return format!("oracle FAIL {def}: element {i} is {} but the published factors give {}", o[i], want);
+                }
+            }
+        }
+        let (_, back) = match apply_def(&def, Inv, &out) {
+            Ok(x) => x,
+            Err(e) => return format!("oracle FAIL {e}"),
+        };
+        for (bk, c) in back.iter().zip(data.iter()) {
+            for i in 0..4 {
+                if !(close(bk[i], c[i]) || (bk[i] - c[i]).abs() <= 1e-14 * c[i].abs()) {
+                    return format!("oracle FAIL {def}: inverse gives {} for {}", bk[i], c[i]);
+                }
+            }
+        }
+    }
+    "oracle pass".to_string()
 }
